@@ -17,6 +17,18 @@ Clusters(f) == (Total(f) - NonData(f)) \div f.spc
 NoneBig(f) == \A k \in {"lba", "len", "bps", "spc", "resv", "nfats", "rootent", "tot16", "fatsz16", "tot32", "fatsz32", "fsver", "rootclus", "fsinfo"} : f[k] >= 0
 SupportedTypes == {4, 6, 11, 12, 14}
 
+\* the partition table is well-formed for the selected slot when no other used slot (type and length not 0) shares a
+\* block with it; the others' numbers are pairs of 16-bit halves <<hi, lo>> and may lie anywhere in the 32-bit range
+\* (only called when f.lba + f.len < 2^31)
+Pv(p) == p[1] * 65536 + p[2]
+SharesBlocks(f, o) ==
+  /\ o.ptype # 0 /\ o.len # <<0, 0>> /\ f.len > 0
+  /\ o.lba[1] < 32768 /\ Pv(o.lba) < f.lba + f.len                               \* it starts before this one ends
+  /\ \/ Pv(o.lba) > f.lba                                                        \* and ends after this one starts
+     \/ o.len[1] >= 32768
+     \/ f.lba - Pv(o.lba) < Pv(o.len)
+TableOK(f) == \A i \in DOMAIN f.others : ~SharesBlocks(f, f.others[i])
+
 Valid(f) ==
   /\ NoneBig(f)
   /\ f.mbrsig /\ f.pstat \in {0, 128} /\ f.ptype \in SupportedTypes
@@ -25,6 +37,7 @@ Valid(f) ==
   /\ FatSz(f) < 4194304 /\ Total(f) < 1073741824               \* keeps the arithmetic below 2^31
   /\ Total(f) > NonData(f) /\ Total(f) <= f.len
   /\ f.lba >= 1 /\ f.lba + f.len < 2147483647
+  /\ TableOK(f)
   /\ IF Clusters(f) < 4085 THEN FALSE                          \* FAT12: not supported
      ELSE IF Clusters(f) < 65525
      \* (a root entry count that does not fill its last block is unusual but well-formed: the specification's
